@@ -51,6 +51,16 @@ dbus_bool_t bus_service_owner_in_queue (BusService *s, DBusConnection *c)
 #endif
   return r->conn_in_queue;
 }
+/* the service's primary owner: the connection in question iff conn_is_primary */
+DBusConnection *bus_service_get_primary_owners_connection (BusService *s)
+{
+  struct ref_rule *r = (struct ref_rule *) s;
+#if MODE == 0
+  return r->conn_is_primary ? &conn_recv : &conn_other;
+#else
+  return r->conn_is_primary ? &conn_send : &conn_other;
+#endif
+}
 dbus_bool_t bus_connection_is_queued_owner_by_prefix (DBusConnection *c, const char *p)
 {
   VF_ASSERT (c == &conn_recv, "prefix ownership asked about the receiver");
@@ -74,6 +84,7 @@ static void make_rule (int i)
   r->allow = vf_bool ();
   q->kind = t; q->allow = r->allow;
   q->svc_exists = vf_bool (); q->conn_in_queue = vf_bool (); q->conn_owns_by_prefix = vf_bool ();
+  q->conn_is_primary = vf_bool (); VF_ASSUME (!q->conn_is_primary || q->conn_in_queue);   /* the primary owner is in the queue */
   q->mtype = 0; q->path = q->iface = q->member = q->err = q->peer = 0; q->minf = 0; q->maxf = 0; q->eaves = q->reqrep = q->bcast = q->isprefix = 0;
   if (t == 0)
     {
